@@ -150,6 +150,21 @@ def handle : Handler := fun op args =>
         | .error e => some ("!" ++ e.tag)
       | _ => none
     some ("ok " ++ ";".intercalate rs)
+  -- Tx.check_solution observed: `trace` = the calls of the sighash closures (`kind:ht:script:sigs`, comma separated),
+  -- `vmap` = for every call of generator.verify, which closure call produced its message
+  | "c04_checksol", [c, tx, us, idx, trace, vmap] => do
+    let c ← parseCoin? c
+    let tx ← parseTx? tx; let us ← parseUnspents? us; let idx ← parseNat? idx
+    let rs ← (if trace = "~" then some [] else (trace.splitOn ",").mapM fun e =>
+      match e.splitOn ":" with
+      | [k, ht, script, sigs] => do
+        let ht ← parseNat? ht; let script ← parseBytes? script; let sigs ← parseSigs? sigs
+        if k = "legacy" then some (sighashF c tx us script sigs idx ht)
+        else if k = "witness" then some (witnessSighashF c tx us script sigs idx ht) else none
+      | _ => none)
+    let vm ← parseList? parseNat? vmap
+    let vals ← vm.mapM fun j => rs[j]?
+    some ("ok " ++ showList (fun r => match r with | .ok n => hex64 n | .error e => "!" ++ e.tag) vals)
   | _, _ => none
 
 end Pycoin.Driver.C04
